@@ -713,7 +713,7 @@ def stream_small(R):
 
 def stream_random(R):
     batch = Batch(R, 'random')
-    N = R.pick(700, 6000)
+    N = R.pick(700, 5000)
     for i in range(N):
         rng = R.subrng('random', i)
         n = rng.choice([1, 2, 2, 3, 3, 3])
@@ -744,7 +744,7 @@ def stream_magnitudes(R):
     for M, t, shape in fixed:
         views = [['tuple', [['s', None, None, None]] * len(shape)], ['none', []], ['ellipsis', []]] + [random_view(rng, shape) for _ in range(6)]
         check_views(R, batch, ('aff', M, t), shape, views, 'magnitudes')
-    N = R.pick(300, 2500)
+    N = R.pick(300, 1500)
     for i in range(N):
         rng = R.subrng('magnitudes', i)
         n = rng.choice([1, 1, 2, 2, 3, 3])
